@@ -4,8 +4,9 @@
 // Restake.tla (property C16) and FeedsVote.tla (property C07).  Verdicts are TLC's
 // (Restake_Trace.tla / FeedsVote_Trace.tla), not this package's.
 //
-// Numbers.  Restake amounts (math.Int) are logged as hi*HM+lo for the real value hi*2^63+lo
-// (HM = 1000000, |lo| < HM/2; so 2^63-4 is 999996 and 2^64-1 is 1999999).  Signal powers (int64) near the int64 limit are logged as the
+// Numbers.  Restake amounts (math.Int) are logged as hi*10^8 + mid*10^4 + lo for the real value
+// hi*2^63 + mid*10^6 + lo (|mid|, |lo| < 5000, no carries: order and sums are preserved; so 2^63-4 is
+// 99999996, 2^64-1 is 199999999 and a self-delegation of 3000000 uband is 30000).  Signal powers (int64) near the int64 limit are logged as the
 // order-preserving stand-ins 1000000-j for 2^63-1-j and 500000+j for 2^62+j; everything else as is.
 package fam_restake
 
@@ -21,6 +22,7 @@ import (
 	sdk "github.com/cosmos/cosmos-sdk/types"
 	authtypes "github.com/cosmos/cosmos-sdk/x/auth/types"
 	minttypes "github.com/cosmos/cosmos-sdk/x/mint/types"
+	slashingtypes "github.com/cosmos/cosmos-sdk/x/slashing/types"
 	stakingtypes "github.com/cosmos/cosmos-sdk/x/staking/types"
 
 	feedstypes "github.com/bandprotocol/chain/v3/x/feeds/types"
@@ -31,14 +33,19 @@ import (
 )
 
 const (
-	HM       = 1_000_000 // model image of 2^63 (restake amounts) / of 2^63-1 (signal powers)
+	HM       = 1_000_000   // model image of 2^63-1 (signal powers)
+	RH       = 100_000_000 // model image of 2^63 (restake amounts)
+	RU       = 10_000      // model image of 10^6 uband (one unit of consensus power)
+	Digit    = 5000        // bound on |mid| and |lo|
 	Sentinel = -9        // a value the model cannot represent (always rejected by TLC)
 	NSignal  = 4
-	NAcct    = 3
+	NAcct    = 3 // plain accounts a1..a3
+	NOper    = 2 // operator accounts o1, o2 (operators of v1, v2; v3's operator never acts, so v3 always stays bonded)
 )
 
 var (
 	two63   = new(big.Int).Lsh(big.NewInt(1), 63)
+	million = big.NewInt(1_000_000)
 	denoms  = map[string]string{"d1": "uband", "d2": "ubig"}
 	dnames  = []string{"d1", "d2"}
 	vaults  = []string{"feeds", "k1", "k2"}
@@ -72,6 +79,8 @@ func (d *Driver) world() *world.World {
 	if d.w == nil {
 		cfg := world.DefaultConfig()
 		cfg.NumAccounts = NAcct
+		// small validators: 3, 2 and 5 units of consensus power, all of it self-delegated by the operator
+		cfg.ValTokens = []int64{3_000_000, 2_000_000, 5_000_000}
 		d.w = world.New(cfg)
 	}
 	return d.w
@@ -80,19 +89,34 @@ func (d *Driver) world() *world.World {
 // ---------------------------------------------------------------------------------------------
 // number maps
 
-// toModel maps a restake amount to its model image: the real value hi*2^63+lo with |lo| < HM/2 is hi*HM+lo.
+func roundDiv(x, d *big.Int) *big.Int {
+	half := new(big.Int).Rsh(d, 1)
+	return new(big.Int).Div(new(big.Int).Add(x, half), d) // floor((x + d/2) / d): nearest multiple
+}
+
+// toModel maps a restake amount to its model image.
 func toModel(x sdkmath.Int) int {
 	if x.IsNil() || x.IsNegative() {
 		return Sentinel
 	}
 	b := x.BigInt()
-	half := new(big.Int).Rsh(two63, 1)
-	hi := new(big.Int).Div(new(big.Int).Add(b, half), two63) // nearest multiple of 2^63
-	lo := new(big.Int).Sub(b, new(big.Int).Mul(hi, two63))
-	if !hi.IsInt64() || hi.Int64() > 1000 || new(big.Int).Abs(lo).Cmp(big.NewInt(HM/2)) >= 0 {
+	hi := roundDiv(b, two63)
+	r := new(big.Int).Sub(b, new(big.Int).Mul(hi, two63))
+	mid := roundDiv(r, million)
+	lo := new(big.Int).Sub(r, new(big.Int).Mul(mid, million))
+	d := big.NewInt(Digit)
+	if !hi.IsInt64() || hi.Int64() > 20 || new(big.Int).Abs(mid).Cmp(d) >= 0 || new(big.Int).Abs(lo).Cmp(d) >= 0 {
 		return Sentinel
 	}
-	return int(hi.Int64())*HM + int(lo.Int64())
+	return int(hi.Int64())*RH + int(mid.Int64())*RU + int(lo.Int64())
+}
+
+func roundDivInt(x, d int) int {
+	q := (x + d/2) / d
+	if (x+d/2)%d < 0 {
+		q--
+	}
+	return q
 }
 
 // toReal maps a model amount to the real restake amount.
@@ -100,11 +124,13 @@ func toReal(n int) sdkmath.Int {
 	if n < 0 {
 		return sdkmath.NewInt(int64(n))
 	}
-	hi := (n + HM/2) / HM
-	lo := n - hi*HM
-	r := new(big.Int).Mul(big.NewInt(int64(hi)), two63)
-	r.Add(r, big.NewInt(int64(lo)))
-	return sdkmath.NewIntFromBigInt(r)
+	hi := roundDivInt(n, RH)
+	r := n - hi*RH
+	mid := roundDivInt(r, RU)
+	lo := r - mid*RU
+	out := new(big.Int).Mul(big.NewInt(int64(hi)), two63)
+	out.Add(out, big.NewInt(int64(mid)*1_000_000+int64(lo)))
+	return sdkmath.NewIntFromBigInt(out)
 }
 
 // sigReal maps a model signal power to the int64 sent in MsgVote.
@@ -143,7 +169,34 @@ type session struct {
 	interesting bool
 }
 
-func (s *session) acct(k int) world.Account { return s.w.Accts[((k-1)%NAcct+NAcct)%NAcct] }
+// actors: the plain accounts a1..a3 (indices 1..3) and the operator accounts o1, o2 (indices 4, 5), which hold
+// their validator's self-delegation.
+func (s *session) actors() []world.Account {
+	out := append([]world.Account{}, s.w.Accts[:NAcct]...)
+	for i := 0; i < NOper; i++ {
+		o := s.w.Vals[i]
+		o.Name = fmt.Sprintf("o%d", i+1)
+		out = append(out, o)
+	}
+	return out
+}
+
+func (s *session) acct(k int) world.Account {
+	as := s.actors()
+	n := len(as)
+	return as[((k-1)%n+n)%n]
+}
+
+// minSelf reads the validator's MinSelfDelegation (model units).
+func (s *session) minSelf(v world.Account) int {
+	out := 0
+	safe(func() {
+		if val, err := s.w.App.StakingKeeper.GetValidator(s.r.Ctx, v.ValAddr); err == nil {
+			out = toModel(val.MinSelfDelegation)
+		}
+	})
+	return out
+}
 func (s *session) val(k int) world.Account {
 	n := len(s.w.Vals)
 	return s.w.Vals[((k-1)%n+n)%n]
@@ -284,7 +337,7 @@ func (s *session) project() tf.M {
 	deleg, stake, lock, lidx, power := tf.M{}, tf.M{}, tf.M{}, tf.M{}, tf.M{}
 	vote := tf.M{}
 	voteExtra := 0
-	for _, a := range s.w.Accts {
+	for _, a := range s.actors() {
 		dm := tf.M{}
 		for _, v := range s.w.Vals {
 			dm[v.Name] = s.delegOf(a, v)
@@ -333,6 +386,22 @@ func (s *session) project() tf.M {
 	for _, k := range vaults {
 		vault[k] = s.vaultOf(k)
 	}
+	// validators whose status is Bonded (their delegations count in GetDelegatorBonded), and the jailed ones
+	bonded, jailed := []string{}, []string{}
+	for _, v := range s.w.Vals {
+		safe(func() {
+			val, err := app.StakingKeeper.GetValidator(ctx, v.ValAddr)
+			if err != nil {
+				return
+			}
+			if val.IsBonded() {
+				bonded = append(bonded, v.Name)
+			}
+			if val.IsJailed() {
+				jailed = append(jailed, v.Name)
+			}
+		})
+	}
 	modBal := tf.M{}
 	for _, d := range dnames {
 		v := Sentinel
@@ -377,7 +446,7 @@ func (s *session) project() tf.M {
 			"maxI": int(p.MaxInterval), "upd": int(p.CurrentFeedsUpdateInterval)}
 	})
 	return tf.M{
-		"h": int(s.r.Height), "deleg": deleg, "stake": stake, "allowed": s.allowed(), "vault": vault, "lock": lock,
+		"h": int(s.r.Height), "deleg": deleg, "stake": stake, "allowed": s.allowed(), "bonded": bonded, "jailed": jailed, "vault": vault, "lock": lock,
 		"lidx": lidx, "modBal": modBal, "power": power,
 		"par": par, "vote": vote, "voteExtra": voteExtra, "total": total, "idx": idx, "feeds": feeds, "lastUpd": lastUpd,
 	}
@@ -467,9 +536,33 @@ func (d *Driver) RunScript(sc tf.Script) {
 	if err := app.FeedsKeeper.SetParams(ctx, fp); err != nil {
 		panic(err)
 	}
-	// a high-supply second denom: 8 * 2^63 ubig per account
-	big8 := sdkmath.NewIntFromBigInt(new(big.Int).Lsh(big.NewInt(1), 66))
-	for _, a := range w.Accts {
+	// MinSelfDelegation of the validators (model units; default 1: only the full removal of the self-delegation jails)
+	msd := []int{1, 1, 1}
+	if l, ok := sc.C["msd"].([]interface{}); ok {
+		for i := range msd {
+			if i < len(l) {
+				if f, ok := l[i].(float64); ok {
+					msd[i] = int(f)
+				}
+			}
+		}
+	}
+	if l, ok := sc.C["msd"].([]int); ok {
+		copy(msd, l)
+	}
+	for i, v := range w.Vals {
+		val, err := app.StakingKeeper.GetValidator(ctx, v.ValAddr)
+		if err != nil {
+			panic(err)
+		}
+		val.MinSelfDelegation = toReal(msd[i])
+		if err := app.StakingKeeper.SetValidator(ctx, val); err != nil {
+			panic(err)
+		}
+	}
+	// a high-supply second denom: 3 * 2^63 + 2000 ubig per actor (the sum of all stakes stays below 2^31 model units)
+	big8 := sdkmath.NewIntFromBigInt(new(big.Int).Add(new(big.Int).Mul(big.NewInt(3), two63), big.NewInt(2000)))
+	for _, a := range s.actors() {
 		coins := sdk.NewCoins(sdk.NewCoin(denoms["d2"], big8))
 		if err := app.BankKeeper.MintCoins(ctx, minttypes.ModuleName, coins); err != nil {
 			panic(err)
@@ -505,6 +598,10 @@ func (s *session) count(e string, o world.Outcome) {
 
 // amount resolves "n" (a number) or "sym" (a boundary relative to the real state) of a step.
 func (s *session) amount(step tf.M, a world.Account, have int) int {
+	return s.amountV(step, a, have, nil)
+}
+
+func (s *session) amountV(step tf.M, a world.Account, have int, v *world.Account) int {
 	sym := tf.Str(step, "sym", "")
 	slack := s.powerOf(a) - s.maxActiveLock(a)
 	n := tf.Int(step, "n", 1)
@@ -529,6 +626,14 @@ func (s *session) amount(step tf.M, a world.Account, have int) int {
 		n = have
 	case "all+1":
 		n = have + 1
+	case "tomsd", "tomsd+1": // down to exactly the validator's MinSelfDelegation (no jailing) / one below it (jails)
+		n = have
+		if v != nil {
+			n = have - s.minSelf(*v)
+		}
+		if sym == "tomsd+1" {
+			n++
+		}
 	}
 	if sym != "" && n <= 0 {
 		n = 1
@@ -583,7 +688,7 @@ func (s *session) apply(step tf.M) {
 	case "Delegate", "Undelegate":
 		a := s.acct(tf.Int(step, "a", 1))
 		v := s.valOf(a, tf.Int(step, "v", 1))
-		n := s.amount(step, a, s.delegOf(a, v))
+		n := s.amountV(step, a, s.delegOf(a, v), &v)
 		coin := sdk.Coin{Denom: "uband", Amount: toReal(n)}
 		var o world.Outcome
 		if e == "Delegate" {
@@ -599,7 +704,7 @@ func (s *session) apply(step tf.M) {
 	case "Redelegate":
 		a, w := s.acct(tf.Int(step, "a", 1)), s.val(tf.Int(step, "w", 2))
 		v := s.valOf(a, tf.Int(step, "v", 1))
-		n := s.amount(step, a, s.delegOf(a, v))
+		n := s.amountV(step, a, s.delegOf(a, v), &v)
 		coin := sdk.Coin{Denom: "uband", Amount: toReal(n)}
 		o := s.r.Deliver(stakingtypes.NewMsgBeginRedelegate(a.Addr.String(), v.ValAddr.String(), w.ValAddr.String(), coin))
 		if c16 && !o.OK() {
@@ -632,6 +737,13 @@ func (s *session) apply(step tf.M) {
 		s.d.W.Step(e, tf.M{"k": k}, outc(o), s.project())
 	case "Vote":
 		s.vote(step)
+	case "Unjail":
+		// environment: slashing.MsgUnjail by the operator (succeeds once the self-delegation is back at MinSelfDelegation);
+		// the validator re-enters the bonded set at the next end of block
+		v := s.val(tf.Int(step, "v", 1))
+		o := s.r.Deliver(slashingtypes.NewMsgUnjail(v.ValAddr.String()))
+		s.count(e, o)
+		s.d.W.Step("Unjail", tf.M{"v": v.Name}, outc(o), s.project())
 	case "SetPower":
 		// GEN role of FeedsVote.tla: move the voter's total power towards p with one real message
 		a := s.acct(tf.Int(step, "a", 1))
@@ -697,9 +809,9 @@ func (s *session) vote(step tf.M) {
 		sv[0].p = p
 	}
 	if c16 {
-		// from the restake side only small locks are representable
+		// from the restake side powers are in restake model units; only those below 2^63 fit a signal power
 		for i := range sv {
-			if sv[i].p >= HM/4 {
+			if sv[i].p >= RH/2 {
 				sv[i].p = 1 + sv[i].p%7
 			}
 		}
@@ -719,6 +831,9 @@ func (s *session) vote(step tf.M) {
 			}
 		}
 		rp := sigReal(x.p)
+		if c16 && x.p > 0 {
+			rp = toReal(x.p).Int64()
+		}
 		x.p = sigModel(rp)
 		sigs = append(sigs, feedstypes.NewSignal(id, rp))
 		logged = append(logged, tf.M{"s": x.s, "p": x.p})
